@@ -51,6 +51,7 @@ C19(r) == LET o == r.obs IN
 (* C15 *)
 C15(r) == LET o == r.obs sc == r.sc IN
     /\ (sc.prior = "own" /\ ~sc.rm /\ sc.out = "file" /\ o.exit = 0) => o.outSame           \* own output is a fixed point
+    /\ o.secondRan => o.secondSame     \* whatever was there before: what moq just wrote, left in place, is reproduced by the same command
     /\ (sc.rm /\ sc.out = "file" /\ PriorIsFile(sc) /\ sc.fault = "none" /\ sc.args \in {"ok", "ok2"})
           => (o.exit = 0 /\ o.outEqualsRef /\ (o.straceOK => o.unlinkBeforeLoad))            \* -rm: prior content irrelevant
 
